@@ -15,41 +15,79 @@ BS = 'lib_trainer/base_structure.py::base_structure_creation'
 
 
 def r1_relative_frequency(ctx, rule):
+    """calculate_probabilities(counter) = [(item, count / sum(counter.values())) for (item, count) in counter.most_common()].
+
+    Accepted spellings: the in-place rewrite of the most_common() list (`for i, v in enumerate(L): L[i] = (v[0], v[1] / T)`),
+    a list comprehension over counter.most_common() (element bound to one name or unpacked), an early `return []` for an
+    empty counter.  Anything else that is understood but different is a violation; anything not understood is inconclusive."""
     fn = ctx.fn(CP)
     cn = params(fn)[0]
-    a = {}
-    for st in fn.body:
-        if isinstance(st, ast.Assign) and len(st.targets) == 1 and isinstance(st.targets[0], ast.Name):
-            a[st.targets[0].id] = st.value
-    total = [k for k, v in a.items() if U(v) == 'sum(%s.values())' % cn]
-    lst = [k for k, v in a.items() if U(v) == '%s.most_common()' % cn]
-    facts = {'assignments': {k: U(v) for k, v in a.items()}}
-    if len(total) != 1 or len(lst) != 1:
-        ctx.bad(rule, CP, 'total/list: %s' % facts['assignments'], 'probabilities must be count / sum of all counts of the same '
-                'counter, listed in most_common() (descending count, stable) order', facts, fn)
+    stores = stores_in(fn)
+    body = [st for st in fn.body if not (isinstance(st, ast.Expr) and isinstance(st.value, ast.Constant))]
+    facts = {}
+    # early exits: only `if not counter: return []`
+    for st in body:
+        if isinstance(st, ast.If):
+            if U(st.test) in ('not %s' % cn, 'len(%s) == 0' % cn) and len(st.body) == 1 and isinstance(st.body[0], ast.Return) \
+                    and U(st.body[0].value) == '[]' and not st.orelse:
+                continue
+            ctx.bad(rule, CP, 'conditional in calculate_probabilities: if %s' % U(st.test)[:50], 'every item of the counter gets '
+                    'count / total; nothing is filtered or special-cased', facts, st)
+            return
+    rets = [st for st in body if isinstance(st, ast.Return) and st.value is not None]
+    if not rets:
+        ctx.unk(rule, CP, 'no return value found')
         return
-    T, L = total[0], lst[0]
-    loops = [s for s in fn.body if isinstance(s, ast.For)]
-    ok = False
-    if len(loops) == 1:
-        l = loops[0]
-        if U(l.iter) == 'enumerate(%s)' % L and isinstance(l.target, ast.Tuple) and len(l.body) == 1:
-            i, v = U(l.target.elts[0]), U(l.target.elts[1])
-            s = l.body[0]
-            if isinstance(s, ast.Assign) and U(s.targets[0]) == '%s[%s]' % (L, i) and U(s.value) == '(%s[0], %s[1] / %s)' % (v, v, T):
-                ok = True
-            facts['update'] = U(s)
-    elif not loops:
-        # comprehension form
-        for s in fn.body:
-            if isinstance(s, ast.Return) and isinstance(s.value, ast.ListComp):
-                facts['update'] = U(s.value)
-    rets = [s for s in fn.body if isinstance(s, ast.Return)]
-    if ok and rets and U(rets[-1].value) == L:
+    final = rets[-1]
+    val = expand(fn, final.value, stores) if isinstance(final.value, ast.Name) else final.value
+
+    def total_ok(t):
+        te = expand(fn, t, stores)
+        return U(te) == 'sum(%s.values())' % cn
+    ok = None
+    if isinstance(val, ast.ListComp) and len(val.generators) == 1 and not val.generators[0].ifs:
+        g = val.generators[0]
+        src = expand(fn, g.iter, stores)
+        facts['comprehension'] = U(val)
+        if U(src) != '%s.most_common()' % cn:
+            ok = False
+        elif isinstance(val.elt, ast.Tuple) and len(val.elt.elts) == 2 and isinstance(val.elt.elts[1], ast.BinOp) \
+                and isinstance(val.elt.elts[1].op, ast.Div):
+            e0, num, den = val.elt.elts[0], val.elt.elts[1].left, val.elt.elts[1].right
+            if isinstance(g.target, ast.Tuple) and len(g.target.elts) == 2:
+                ok = U(e0) == U(g.target.elts[0]) and U(num) == U(g.target.elts[1]) and total_ok(den)
+            elif isinstance(g.target, ast.Name):
+                v = g.target.id
+                ok = U(e0) == '%s[0]' % v and U(num) == '%s[1]' % v and total_ok(den)
+        else:
+            ok = False
+    elif isinstance(final.value, ast.Name):
+        L = final.value.id
+        defs = [v for s_, v in stores.get(L, []) if v is not None]
+        loops = [s_ for s_ in body if isinstance(s_, ast.For)]
+        facts['list'] = [U(d) for d in defs]
+        if [U(d) for d in defs] == ['%s.most_common()' % cn] and len(loops) == 1:
+            l = loops[0]
+            if U(l.iter) == 'enumerate(%s)' % L and isinstance(l.target, ast.Tuple) and len(l.body) == 1:
+                i, v = U(l.target.elts[0]), U(l.target.elts[1])
+                s_ = l.body[0]
+                facts['update'] = U(s_)
+                if isinstance(s_, ast.Assign) and U(s_.targets[0]) == '%s[%s]' % (L, i) and isinstance(s_.value, ast.Tuple) \
+                        and len(s_.value.elts) == 2 and isinstance(s_.value.elts[1], ast.BinOp) and isinstance(s_.value.elts[1].op, ast.Div):
+                    ok = U(s_.value.elts[0]) == '%s[0]' % v and U(s_.value.elts[1].left) == '%s[1]' % v and total_ok(s_.value.elts[1].right)
+                else:
+                    ok = False
+        elif defs and not any(U(d) == '%s.most_common()' % cn for d in defs) and all(isinstance(d, (ast.Call, ast.ListComp, ast.List)) for d in defs):
+            # understood and different: the list does not come from most_common()
+            ok = False if any('sorted' in U(d) or 'items()' in U(d) or 'most_common' in U(d) for d in defs) else None
+    if ok is True:
         ctx.ok(rule, CP, 'returns most_common() order with (value, count / sum(counts)) element-wise', facts)
+    elif ok is False:
+        ctx.bad(rule, CP, 'probability list %s' % (facts.get('comprehension') or facts.get('update') or facts.get('list')),
+                'each item keeps its most_common() position (descending count, stable) and gets count / sum of all counts of the '
+                'same counter', facts, fn)
     else:
-        ctx.bad(rule, CP, 'probability update %s' % facts.get('update'), 'each item keeps its position and gets count / total',
-                facts, fn)
+        ctx.unk(rule, CP, 'calculate_probabilities is not in a recognised form (in-place rewrite or comprehension over most_common())')
 
 
 def r2_all_items_written(ctx, rule):
